@@ -8,6 +8,7 @@ CONSTANTS
   Small = FALSE
   Avoid = TRUE
   SimK = 1
+  AccW = TRUE
   Acts = {"dset", "oset", "rebind", "ddel", "batch", "lset", "ldel", "slice", "lins", "inplace", "xslice", "ctor"}
 CONSTRAINT LevelBound
 INVARIANT Conforms
